@@ -105,6 +105,24 @@ func genSource(kind string, n int) string {
 		return "func f(x){x}\n" + strings.Repeat("f(", n) + "1" + strings.Repeat(")", n)
 	case "stmts":
 		return strings.Repeat("x=1\n", n)
+	// definitions (never called) of functions whose body nests n levels, each level having a statement that ends in ] or }
+	// followed by another statement: the compact printer (SetCacheKey) formats the whole body in one evaluation step
+	case "defnest-if":
+		return "f=func(){" + strings.Repeat("x=[1] if true {", n) + "x=[1]" + strings.Repeat("}", n) + "}; 1"
+	case "defnest-if-after":
+		return "f=func(){" + strings.Repeat("if true {", n) + "1" + strings.Repeat("} y=2 ", n) + "}; 1"
+	case "defnest-for":
+		return "func f(){" + strings.Repeat("m={} for i=2 {", n) + "m" + strings.Repeat("} a=[1][0] ", n) + "}; 1"
+	case "defnest-closure":
+		return "f=func(){" + strings.Repeat("m={} return func(){", n) + "0" + strings.Repeat("}", n) + "}; 1"
+	case "defnest-lambda":
+		return "f=" + strings.Repeat("(a)=>{ t=[a] (b)=>{ t ", n) + "1" + strings.Repeat("} }", n) + "; 1"
+	case "defnest-index":
+		return "func f(a){" + strings.Repeat("a[0] if a[0]==1 { a[1] ", n) + "a" + strings.Repeat("} a[2] ", n) + "}; 1"
+	case "defnest-mixed":
+		return "f=func(){" + strings.Repeat("x={1:[2]} for true { if false {1} else {2} y=[x] ", n) + "break" + strings.Repeat("} z=3 ", n) + "}; 1"
+	case "defnest-called":
+		return "f=func(k){" + strings.Repeat("x=[k] if k>0 {", n) + "x=[1]" + strings.Repeat("}", n) + " x}; f(1); f(0)"
 	}
 	return "1"
 }
@@ -1025,6 +1043,22 @@ func runC09(c *Ctx) {
 		}
 	}
 	c.Extra["bounded_families"] = len(fams)
+	// definitions of functions with deeply nested bodies (10..30 levels): defining (and formatting the cache key of) a
+	// function is one evaluation step, its cost must stay negligible whatever the nesting
+	defLevels := []int{12, 20, 26}
+	if c.Thorough() {
+		defLevels = []int{10, 14, 18, 22, 26, 30}
+	}
+	for _, g := range []string{"defnest-if", "defnest-if-after", "defnest-for", "defnest-closure", "defnest-lambda", "defnest-index", "defnest-mixed", "defnest-called"} {
+		for li, n := range defLevels {
+			sp := childSpec{Gen: g, N: n, MaxDepth: 1000, DurMs: 200, ASLimit: asLimit, Compact: li%2 == 1}
+			r := runChild(c, sp, memLimitStr, 10*time.Second)
+			judge(c, g, sp, r, "")
+			if r.ok && len(r.rep.Errs) > 0 {
+				c.Fail(g+":definition-fails", fmt.Sprintf("gen=%s n=%d", g, n), r.rep.Errs[0])
+			}
+		}
+	}
 	// deeply nested source text: sizes that the front end and the evaluator handle
 	depths := []int{1000, 5000}
 	if c.Thorough() {
